@@ -12,7 +12,7 @@ use poulpy_ckks::layouts::{
     CKKSPlaintextVecRnx, CKKSPlaintextVecZnx,
 };
 use poulpy_ckks::leveled::{
-    CKKSAddOps, CKKSAllOpsTmpBytes, CKKSConjugateOps, CKKSDecrypt, CKKSEncrypt, CKKSMulAddOps, CKKSMulOps, CKKSMulSubOps,
+    CKKSAddManyOps, CKKSAddOps, CKKSAddOpsUnsafe, CKKSAllOpsTmpBytes, CKKSDotProductOps, CKKSMulManyOps, CKKSConjugateOps, CKKSDecrypt, CKKSEncrypt, CKKSMulAddOps, CKKSMulOps, CKKSMulSubOps,
     CKKSNegOps, CKKSPlaintextZnxOps, CKKSPow2Ops, CKKSRescaleOps, CKKSRotateOps, CKKSSubOps,
 };
 use poulpy_ckks::oep::CKKSImpl;
@@ -71,7 +71,8 @@ macro_rules! umbrella {
 umbrella!(CkksAll<B>:
     CKKSEncrypt<B>, CKKSDecrypt<B>, CKKSAddOps<B>, CKKSSubOps<B>, CKKSMulOps<B>, CKKSNegOps<B>, CKKSPow2Ops<B>,
     CKKSRotateOps<B>, CKKSConjugateOps<B>, CKKSRescaleOps<B>, CKKSMulAddOps<B>, CKKSMulSubOps<B>, CKKSMaintainOps,
-    CKKSAllOpsTmpBytes<B>, CKKSPlaintextZnxOps<B>,
+    CKKSAllOpsTmpBytes<B>, CKKSPlaintextZnxOps<B>, CKKSAddManyOps<B>, CKKSMulManyOps<B>, CKKSDotProductOps<B>,
+    CKKSAddOpsUnsafe<B>,
 );
 
 /// backend bound used by every generic function of this crate
@@ -131,6 +132,8 @@ pub struct Ctx<B: Cb, F: Real> {
     pub atks: HashMap<i64, GLWEAutomorphismKeyPrepared<DeviceBuf<B>, B>>,
     pub conj: GLWEAutomorphismKeyPrepared<DeviceBuf<B>, B>,
     pub enc: Encoder<F>,
+    pub tsk_layout: GLWETensorKeyLayout,
+    pub atk_layout: GLWEAutomorphismKeyLayout,
     pub scratch_bytes: usize,
     /// slot-vector alphabet used for encryptions and vector plaintext operands
     pub vecs: Vec<Vec<Cplx<F>>>,
@@ -210,7 +213,7 @@ where
             .max(module.ckks_decrypt_tmp_bytes(&glwe_infos))
             .max(module.ckks_align_tmp_bytes())
             .max(module.ckks_rescale_tmp_bytes());
-        scratch_bytes += 4096;
+        scratch_bytes = 4 * scratch_bytes + (1 << 16);
         let mut scratch = B::scratch(scratch_bytes);
 
         let mut tsk_raw = GLWETensorKey::alloc_from_infos(&tsk_infos);
@@ -287,6 +290,8 @@ where
             atks,
             conj,
             enc,
+            tsk_layout: tsk_infos.layout,
+            atk_layout: atk_infos.layout,
             scratch_bytes,
             vecs,
             vec_rnx,
